@@ -540,7 +540,11 @@ class Scalar(Parametrized):
     def grad(self, var, **params):
         if var not in self.free_symbols:
             return Sum([], self.dom, self.cod)
-        return Scalar(self.array[0].diff(var))
+        value = self.array[0]
+        gradient = value.diff(var)
+        if self.is_mixed:
+            return Scalar(gradient, is_mixed=True)
+        return Scalar(gradient)
 
     def dagger(self):
         return self if self._dagger is None\
